@@ -49,11 +49,26 @@ def all_paths_write(fv, stmts) -> bool:
     return True
 
 
+def _emptiness_of_guards(si, node, name="self"):
+    from .empty import nonempty_guard
+
+    for t, p in si.effective_guards(node):
+        if nonempty_guard(t, name, p):
+            return False
+        if not isinstance(t, ast.BoolOp) and nonempty_guard(t, name, not p):
+            return True
+    return None
+
+
 def check_dataset_pair(ctx, writer_q, reader_q, kind):
     """writer/reader of one dataset kind: attrs keys, sentinel, class name"""
+    from ..astutil import value_cases
+    from .collections import emptiness
+
     m = ctx.model
     w, r = m.func(writer_q), m.func(reader_q)
     wv, rv = view(m, w), view(m, r)
+    wsi = stmt_index(wv)
     site = f"{kind}:dataset"
     wr, rd = attrs_written(wv), attrs_read(rv)
     for key in sorted(rd):
@@ -63,33 +78,38 @@ def check_dataset_pair(ctx, writer_q, reader_q, kind):
                    f"attribute '{key}' is read by {reader_q} but " + ("not written at all" if key not in wr else "not written on every path") + f" by {writer_q}: reading such a file raises KeyError")
     if not rd:
         ctx.undecided("IOAGREE", f"{site}:attrs", r, "reader reads no attributes")
-    # sentinel for the empty collection
-    w_sent = [U(s.value) for s in wr.get("droplet_class", []) if isinstance(s.value, ast.Constant)]
+    # class tag per emptiness of the collection
+    tags = set()
+    for st in wr.get("droplet_class", []):
+        for dec, val in value_cases(wv, st, st.value):
+            e = emptiness(dec, "self")
+            if e is None:
+                e = _emptiness_of_guards(wsi, st)
+            tags.add((e, U(val)))
+    w_sent = sorted(v for e, v in tags if e is True)
+    cls_val = sorted(v for e, v in tags if e is False)
+    # reader's sentinel: comparison of the class attribute with a string literal
     r_sent = []
-    for s in rv.statements():
-        if isinstance(s, ast.If):
-            cp = compare_parts(s.test)
-            if cp and isinstance(cp[2], ast.Constant) and isinstance(cp[2].value, str) and isinstance(cp[1], (ast.Eq, ast.NotEq)):
-                r_sent.append(U(cp[2]))
-    ctx.decide(len(w_sent) == 1 and w_sent == r_sent[:1], "IOAGREE", f"{site}:sentinel", (r, r), f"empty collections are tagged {w_sent[0] if w_sent else '?'} and recognised by the same literal",
-               f"the writer tags empty collections with {w_sent} but the reader tests for {r_sent}")
-    # empty branch writes a shape-() dataset, non-empty branch the data and the class name of the first member
+    for n in ast.walk(r.node):
+        if isinstance(n, ast.Compare) and len(n.ops) == 1 and isinstance(n.ops[0], (ast.Eq, ast.NotEq)):
+            sides = [n.left, n.comparators[0]]
+            lits = [x for x in sides if isinstance(x, ast.Constant) and isinstance(x.value, str)]
+            oth = [x for x in sides if x not in lits]
+            if len(lits) == 1 and oth and U(rv.expand(oth[0], rv.node_of(n) or n, allow_mutated=True)).endswith(".attrs['droplet_class']"):
+                r_sent.append(U(lits[0]))
+    ctx.decide(len(w_sent) == 1 and w_sent == sorted(set(r_sent)), "IOAGREE", f"{site}:sentinel", r, f"empty collections are tagged {w_sent[0] if w_sent else '?'} and recognised by the same literal",
+               f"the writer tags empty collections with {w_sent} but the reader tests for {sorted(set(r_sent))}")
+    # payload
     cds = [c for c in wv.calls() if isinstance(c.func, ast.Attribute) and c.func.attr == "create_dataset"]
-    si = stmt_index(wv)
     branches = {}
     for c in cds:
-        pol = None
-        for t, p in si.guards(c):
-            if U(t) in ("self", "len(self) > 0", "len(self) != 0"):
-                pol = p
-            elif U(t) in ("not self", "len(self) == 0"):
-                pol = not p
-        branches[pol] = c
+        branches[_emptiness_of_guards(wsi, c)] = c
     ok = set(branches) == {True, False}
     if ok:
-        full, emp = branches[True], branches[False]
-        ok = U(kwarg(full, "data")) == "self.data" and kwarg(emp, "shape") is not None and U(kwarg(emp, "shape")) == "()" and U(full.args[0]) == U(emp.args[0]) == w.params[2]
-    cls_val = [U(s.value) for s in wr.get("droplet_class", []) if not isinstance(s.value, ast.Constant)]
+        full, emp = branches[False], branches[True]
+        d_ = kwarg(full, "data")
+        sh = kwarg(emp, "shape")
+        ok = d_ is not None and U(d_) == "self.data" and sh is not None and U(sh) == "()" and U(full.args[0]) == U(emp.args[0]) == w.params[2]
     okc = cls_val in (["self[0].__class__.__name__"], ["type(self[0]).__name__"])
     ctx.decide(bool(ok and okc), "IOAGREE", f"{site}:payload", (w, cds[0]) if cds else w,
                "non-empty: dataset = self.data tagged with the members' class name; empty: shape-() dataset under the same key",
@@ -106,17 +126,27 @@ def check_registry(ctx):
     dfd = m.func(f"{DROP}.droplet_from_data")
     dv = view(m, dfd)
     p0, p1 = dfd.params[0], dfd.params[1]
-    look = any(isinstance(s, ast.Assign) and U(s.value) == f"DropletBase._subclasses[{p0}]" for s in dv.statements())
     rets = [n.stmt for n in dv.return_nodes()]
-    build = len(rets) == 1 and U(rets[0].value).replace(" ", "") == f"cls(**{{key:{p1}[key]forkeyin{p1}.dtype.names}})"
-    ctx.decide(look and build, "IOAGREE", "registry:lookup", dfd, "reader resolves the stored name in the registry and rebuilds the droplet from all dtype fields",
+    build = False
+    if len(rets) == 1:
+        txt = U(dv.expand(rets[0].value, rets[0])).replace(" ", "")
+        build = txt == f"DropletBase._subclasses[{p0}](**{{key:{p1}[key]forkeyin{p1}.dtype.names}})"
+    ctx.decide(build, "IOAGREE", "registry:lookup", dfd, "reader resolves the stored name in the registry and rebuilds the droplet from all dtype fields",
                "droplet_from_data does not look the stored class name up in DropletBase._subclasses and call cls(**{field: data[field]}) over all fields")
-    # readers use droplet_from_data with the class attribute
     for q in (f"{EM}.Emulsion._from_hdf_dataset", f"{TR}.DropletTrack._from_hdf_dataset"):
         r = m.func(q)
         rv = view(m, r)
         cs = [c for c in rv.calls(nested=True) if (rv.callee(c) or "").endswith("droplet_from_data")]
-        ok = len(cs) == 1 and U(cs[0].args[0]) == "droplet_class" and any(isinstance(s, ast.Assign) and U(s.targets[0]) == "droplet_class" and U(s.value) == "dataset.attrs['droplet_class']" for s in rv.statements())
+        ok = False
+        if len(cs) == 1:
+            node = rv.node_of(cs[0])
+            a0 = cs[0].args[0]
+            if node is None:
+                # inside a comprehension: resolve from the enclosing statement
+                for n in rv.cfg.nodes:
+                    if n.stmt is not None and any(x is cs[0] for x in ast.walk(n.stmt)):
+                        node = n
+            ok = node is not None and U(rv.expand(a0, node, allow_mutated=True)) == "dataset.attrs['droplet_class']"
         ctx.decide(ok, "IOAGREE", f"{q}:class", (r, cs[0]) if cs else r, "members are rebuilt with the class named in the file",
                    "the reader does not rebuild members via droplet_from_data(dataset.attrs['droplet_class'], row)")
 
@@ -125,26 +155,41 @@ def check_one_class(ctx):
     m = ctx.model
     fi = m.func(f"{EM}.Emulsion.data")
     fv = view(m, fi)
+    si = stmt_index(fv)
     site = fi.qualname
-    sets = [s for s in fv.statements() if isinstance(s, ast.Assign) and isinstance(s.value, ast.SetComp)]
-    ok = False
-    where = fi
-    for s in sets:
-        elt = U(s.value.elt)
-        var = U(s.value.generators[0].target)
-        nm = U(s.targets[0])
-        if U(s.value.generators[0].iter) == "self":
-            where = s
-            by_class = elt in (f"{var}.__class__", f"type({var})")
-            raises = [i for i in fv.statements() if isinstance(i, ast.If) and U(i.test) in (f"len({nm}) > 1", f"len({nm}) != 1", f"len({nm}) >= 2") and isinstance(i.body[0], ast.Raise)]
-            arr = [x for x in fv.statements() if isinstance(x, ast.Assign) and "np.array([" in U(x.value)]
-            ok = by_class and len(raises) == 1 and "TypeError" in U(raises[0].body[0]) and (not arr or fv.dominates(raises[0], arr[0]))
-            if not by_class:
-                ctx.violate("IOAGREE", site + ":one-class", (fi, s),
-                            f"mixed emulsions are detected by `{elt}` instead of the droplet class: classes that share a data layout (PerturbedDroplet3D / PerturbedDroplet3DAxisSym) are written under the first member's class name and read back as that class")
-                return
-    ctx.decide(ok, "IOAGREE", site + ":one-class", (fi, where), "an emulsion of several droplet classes raises TypeError before any data array is formed (one class per dataset)",
-               "Emulsion.data does not raise TypeError for members of more than one class before forming the array")
+    # the guard: if len(S) > 1: raise TypeError
+    guards = []
+    for s in fv.statements():
+        if isinstance(s, ast.If) and s.body and isinstance(s.body[-1], ast.Raise) and "TypeError" in U(s.body[-1]):
+            cp = compare_parts(s.test)
+            if cp and isinstance(cp[0], ast.Call) and dotted(cp[0].func) == "len" and U(cp[2]) in ("1", "2") and isinstance(cp[1], (ast.Gt, ast.NotEq, ast.GtE)):
+                guards.append((s, U(cp[0].args[0])))
+    if len(guards) != 1:
+        ctx.violate("IOAGREE", site + ":one-class", fi, "Emulsion.data does not raise TypeError for members of more than one class before forming the array")
+        return
+    gs, S = guards[0]
+    elts = []
+    for s in fv.statements():
+        if isinstance(s, ast.Assign) and U(s.targets[0]) == S and isinstance(s.value, ast.SetComp) and U(s.value.generators[0].iter) == "self":
+            elts.append((s, U(s.value.elt), U(s.value.generators[0].target)))
+    for c in fv.calls():
+        if U(c.func) == f"{S}.add" and len(c.args) == 1:
+            lpq = si.enclosing(c, (ast.For,))
+            if lpq is not None and U(lpq[0].iter) == "self":
+                elts.append((lpq[0], U(c.args[0]), U(lpq[0].target)))
+    if len(elts) != 1:
+        ctx.undecided("IOAGREE", site + ":one-class", (fi, gs), f"construction of `{S}` not recognised")
+        return
+    st, elt, var = elts[0]
+    by_class = elt in (f"{var}.__class__", f"type({var})")
+    if not by_class:
+        ctx.violate("IOAGREE", site + ":one-class", (fi, st),
+                    f"mixed emulsions are detected by `{elt}` instead of the droplet class: classes that share a data layout (PerturbedDroplet3D / PerturbedDroplet3DAxisSym) are written under the first member's class name and read back as that class")
+        return
+    arr = [x for x in fv.statements() if isinstance(x, ast.Assign) and "np.array([" in U(x.value)]
+    ok = fv.dominates(st, gs) and (not arr or fv.dominates(gs, arr[0]))
+    ctx.decide(ok, "IOAGREE", site + ":one-class", (fi, gs), "an emulsion of several droplet classes raises TypeError before any data array is formed (one class per dataset)",
+               "the class check does not precede the formation of the data array")
 
 
 def fstring_key(node):
@@ -166,6 +211,7 @@ def check_sequence_keys(ctx, writer_q, reader_q, member_writer, kind):
     if len(cs) == 1:
         where = cs[0]
         key = cs[0].args[1] if len(cs[0].args) > 1 else kwarg(cs[0], "key")
+        key = wv.expand(key, cs[0]) if key is not None else None
         fk = fstring_key(key) if key is not None else None
         detail = f"key `{U(key) if key is not None else None}`"
         if fk:
@@ -174,10 +220,14 @@ def check_sequence_keys(ctx, writer_q, reader_q, member_writer, kind):
             idx_ok = lp is not None and isinstance(lp[0].iter, ast.Call) and dotted(lp[0].iter.func) == "enumerate" and var in names_in(lp[0].target.elts[0] if isinstance(lp[0].target, ast.Tuple) else lp[0].target)
             ok = bool(re.fullmatch(r"0[1-9]\d*d", spec)) and idx_ok
             detail += f" (format spec '{spec}')"
+            if idx_ok and not re.fullmatch(r"0[1-9]\d*d", spec):
+                rd = [n for n in ast.walk(r.node) if isinstance(n, ast.Call) and dotted(n.func) == "sorted"]
+                ctx.violate("IOAGREE", site, (w, where), f"{detail}: members are written under sequence numbers without zero padding but read back in sorted key order — 'x_10' sorts before 'x_2', so collections with more than 10 members come back in a different order")
+                return
     rd = [n for n in ast.walk(r.node) if isinstance(n, ast.Call) and dotted(n.func) == "sorted" and n.args and U(n.args[0]) in ("fp.keys()", "fp", "list(fp.keys())", "list(fp)")]
     ctx.decide(ok and len(rd) == 1, "IOAGREE", site, (w, where),
                "members are written under zero-padded fixed-width sequence numbers and read back in sorted key order: order is preserved",
-               f"{detail}; reader sorts keys: {len(rd) == 1}. Without zero padding 'x_10' sorts before 'x_2', so collections with more than 10 members are read back in a different order")
+               f"{detail}; reader iterates sorted(fp.keys()): {len(rd) == 1}")
 
 
 def check_time_column(ctx):
@@ -185,34 +235,48 @@ def check_time_column(ctx):
     w = m.func(f"{TR}.DropletTrack.data")
     wv = view(m, w)
     site = "DropletTrack:time-column"
-    dt = [s for s in wv.statements() if isinstance(s, ast.Assign) and U(s.targets[0]) == "dtype"]
+    # np.empty(n, dtype=DT): DT = [("time", float64)] + <first droplet>.data.dtype.descr
+    alloc = [c for c in wv.calls() if (wv.callee(c) or "").endswith("numpy.empty") and kwarg(c, "dtype") is not None]
     ok, name, where = False, None, w
-    if len(dt) == 1 and isinstance(dt[0].value, ast.BinOp) and isinstance(dt[0].value.left, ast.List) and len(dt[0].value.left.elts) == 1:
-        where = dt[0]
-        e = dt[0].value.left.elts[0]
-        if isinstance(e, ast.Tuple) and len(e.elts) == 2 and isinstance(e.elts[0], ast.Constant):
-            name = e.elts[0].value
-            ty = U(e.elts[1])
-            ok = ty in ("'f8'", "'<f8'", "float", "np.float64", "'float64'", "np.double", "'d'") and U(dt[0].value.right).endswith(".data.dtype.descr")
-            if not ok:
-                ctx.violate("IOAGREE", site + ":type", (w, dt[0]), f"the time column is typed `{ty}`, not a fixed 64-bit float: times such as 0.25 are truncated/rounded when the first time stamp is an integer, so the file reads back different times")
-                ok = None
+    if len(alloc) == 1:
+        where = alloc[0]
+        dt = wv.expand(kwarg(alloc[0], "dtype"), alloc[0])
+        if isinstance(dt, ast.BinOp) and isinstance(dt.op, ast.Add) and isinstance(dt.left, ast.List) and len(dt.left.elts) == 1:
+            e = dt.left.elts[0]
+            if isinstance(e, ast.Tuple) and len(e.elts) == 2 and isinstance(e.elts[0], ast.Constant):
+                name = e.elts[0].value
+                ty = U(e.elts[1])
+                right = U(dt.right)
+                ok = ty in ("'f8'", "'<f8'", "float", "np.float64", "'float64'", "np.double", "'d'") and right in ("self.first.data.dtype.descr", "self.droplets[0].data.dtype.descr", "self[0].data.dtype.descr")
+                if ty not in ("'f8'", "'<f8'", "float", "np.float64", "'float64'", "np.double", "'d'"):
+                    ctx.violate("IOAGREE", site + ":type", (w, alloc[0]), f"the time column is typed `{ty}`, not a fixed 64-bit float: times such as 0.25 are truncated/rounded when the first time stamp is an integer, so the file reads back different times")
+                    ok = None
     if ok is not None:
         ctx.decide(bool(ok), "IOAGREE", site + ":type", (w, where), "time column is a 64-bit float prepended to the droplet fields",
-                   "the track's table does not prepend a ('time', 64-bit float) column to the droplet dtype")
-    rows = [s for s in wv.statements() if isinstance(s, ast.Assign) and U(s.targets[0]) == "result[i]"]
-    okr = len(rows) == 1 and U(rows[0].value) == "(self.times[i],) + self.droplets[i].data.tolist()"
+                   "the track's table does not prepend a ('time', 64-bit float) column to the first droplet's dtype")
+    rows = [s for s in wv.statements() if isinstance(s, ast.Assign) and isinstance(s.targets[0], ast.Subscript) and isinstance(s.targets[0].slice, ast.Name)]
+    okr = False
+    if len(rows) == 1:
+        iv = U(rows[0].targets[0].slice)
+        okr = U(wv.expand(rows[0].value, rows[0], stop=(iv,))) == f"(self.times[{iv}],) + self.droplets[{iv}].data.tolist()"
     ctx.decide(okr, "IOAGREE", site + ":rows", (w, rows[0]) if rows else w, "row i = (times[i], *droplets[i].data)", "rows are not (self.times[i],) + self.droplets[i].data.tolist()")
     r = m.func(f"{TR}.DropletTrack._from_hdf_dataset")
     rv = view(m, r)
-    t_read = [s for s in rv.statements() if isinstance(s, ast.Assign) and isinstance(s.value, ast.Subscript) and U(s.value.value) == "dataset" and isinstance(s.value.slice, ast.Constant)]
+    rsi = stmt_index(rv)
     drop = [c for c in rv.calls() if (rv.callee(c) or "").endswith("rec_drop_fields")]
-    okd = len(t_read) == 1 and t_read[0].value.slice.value == name and len(drop) == 1 and U(drop[0].args[1]) == repr(name)
+    ap = [c for c in rv.calls() if isinstance(c.func, ast.Attribute) and c.func.attr == "append" and kwarg(c, "time") is not None]
+    okd = oka = False
+    if len(drop) == 1 and len(ap) == 1:
+        okd = U(drop[0].args[0]) == "dataset" and U(drop[0].args[1]) == repr(name)
+        lpq = rsi.enclosing(ap[0], (ast.For,))
+        if lpq is not None and isinstance(lpq[0].iter, ast.Call) and dotted(lpq[0].iter.func) == "zip" and isinstance(lpq[0].target, ast.Tuple) and len(lpq[0].target.elts) == 2:
+            tv, rowv = (U(e) for e in lpq[0].target.elts)
+            z0, z1 = (U(rv.expand(a, lpq[0])) for a in lpq[0].iter.args)
+            okd = okd and z0 == f"dataset[{name!r}]" and z1.replace(" ", "") == f"rfn.rec_drop_fields(dataset,{name!r})"
+            oka = U(kwarg(ap[0], "time")) == tv and U(rv.expand(ap[0].args[0], ap[0], stop=(rowv, tv, "dataset"))).replace("dataset.attrs['droplet_class']", "droplet_class") == f"droplet_from_data(droplet_class, {rowv})"
     ctx.decide(okd, "IOAGREE", site + ":reader", (r, drop[0]) if drop else r, f"reader takes the times from column '{name}' and drops exactly that column",
                f"reader does not split off the '{name}' column written by DropletTrack.data")
-    ap = [c for c in rv.calls() if U(c.func) == "obj.append"]
-    oka = len(ap) == 1 and kwarg(ap[0], "time") is not None and U(kwarg(ap[0], "time")) == "time"
-    ctx.decide(oka, "IOAGREE", site + ":append", (r, ap[0]) if ap else r, "each row is appended with its stored time", "rows are not appended with time=<stored time>")
+    ctx.decide(oka, "IOAGREE", site + ":append", (r, ap[0]) if ap else r, "each row is rebuilt as a droplet and appended with its stored time", "rows are not appended as (droplet_from_data(class, row), time=<stored time>)")
 
 
 def check_exact_eq(ctx):
